@@ -7,8 +7,9 @@ Decided: a Rust `as i32`/`as u32` cast of an f64 saturates, so
   R2 inside every such helper (discovered: local functions f64 -> i32|u32 called from those arms,
      transitively), the operand of each float->int cast is derived from an f64 remainder (`%`), i.e.
      is reduced modulo 2^32 before the cast.
-Not decided: shortest round-trip printing, notation thresholds, toFixed/toPrecision/radix output,
-literal parsing (run-time values), and the helper's constants.
+  R3 readers; R4-R6 printers (rules/numfmt.py): digits come from the number itself, one default printer, no tie-to-even precision formatting.
+Not decided: the printed values themselves (that `{}`/`{:e}` are shortest is the standard library's contract), notation thresholds' constants,
+radix output, toExponential() without digits, and the helper's constants.
 """
 import re
 
@@ -199,6 +200,15 @@ def run(tier):
             if not ok:
                 ck.finding("R3.correctly-rounded-reader", "R3.number-provenance/%s" % f.parent, F.short_span(s[3]),
                            "`%s` builds a Number whose value comes neither from str::parse::<f64> nor from a single integer->float cast" % f.parent)
+
+    # R4-R6 number printing
+    import numfmt
+    numfmt.rules(fx, ck, lambda g: g.file.endswith(("src/value.rs", "builtins/number.rs")))
+    ckc = Check("C15", tier, "", [])
+    numfmt.rules(F.load_fixture(), ckc, lambda g: g.path.startswith("c15::print"), printer_root="c15::print::number_to_string", pre="ctl:")
+    gotc = {fd[0] for fd in ckc.findings}
+    if not {"R4.digits-from-the-number", "R5.one-printer", "R6.tie-rounding"} <= gotc:
+        ck.closed_fail.append("R4-R6 control failed: fixture printers reported by %s" % sorted(gotc))
 
     # positive control
     ctl = F.load_fixture()
